@@ -336,21 +336,24 @@ Neigh(m, v) == {u \in 1..AttrLen(m) : \E t \in 1..(Len(m.idx) \div 3) : \E i, j 
 RECURSIVE SumVals(_, _)
 SumVals(vals, S) == IF S = {} THEN <<0, 0, 0>>
                     ELSE LET u == CHOOSE x \in S : TRUE IN VAdd(vals[u], SumVals(vals, S \ {u}))
-RECURSIVE GaussSeidel(_, _, _)
-GaussSeidel(m, vals, v) ==
+\* smoothing factor lam2/2 (lam2 = 2: move onto the neighbour average, lam2 = 1: half way)
+RECURSIVE GaussSeidel(_, _, _, _)
+GaussSeidel(m, vals, v, lam2) ==
     IF v > Len(vals) THEN vals
     ELSE LET nb == Neigh(m, v) IN
-         IF nb = {} THEN GaussSeidel(m, vals, v + 1)
-         ELSE LET sm == SumVals(vals, nb) IN
-              GaussSeidel(m, [vals EXCEPT ![v] = [c \in 1..3 |-> sm[c] \div Cardinality(nb)]], v + 1)
+         IF nb = {} THEN GaussSeidel(m, vals, v + 1, lam2)
+         ELSE LET sm == SumVals(vals, nb)
+                  avg == [c \in 1..3 |-> sm[c] \div Cardinality(nb)]
+              IN GaussSeidel(m, [vals EXCEPT ![v] = [c \in 1..3 |-> vals[v][c] + ((avg[c] - vals[v][c]) * lam2) \div 2]],
+                             v + 1, lam2)
 LaplacianJudgeable(m, id) ==
     (m.topo = "triangle" /\ HasAttr(m, 3, id)) =>
         (\A i \in DOMAIN AttrData(m, 3, id) : \A c \in 1..3 : Abs(AttrData(m, 3, id)[i][c]) <= 1024 * Q)
-RECURSIVE Sweeps(_, _, _)
-Sweeps(m, vals, k) == IF k = 0 THEN vals ELSE Sweeps(m, GaussSeidel(m, vals, 1), k - 1)
+RECURSIVE Sweeps(_, _, _, _)
+Sweeps(m, vals, k, lam2) == IF k = 0 THEN vals ELSE Sweeps(m, GaussSeidel(m, vals, 1, lam2), k - 1, lam2)
 LaplacianBand == 32     \* units of 1/Q per sweep: floor division against IEEE rounding, propagated through a sweep
-LaplacianOk(m, id, iters, data) ==
-    LET ref == Sweeps(m, AttrData(m, 3, id), iters) IN
+LaplacianOk(m, id, iters, lam2, data) ==
+    LET ref == Sweeps(m, AttrData(m, 3, id), iters, lam2) IN
     \A v \in DOMAIN ref : Neigh(m, v) # {} => \A c \in 1..3 : Abs(data[v][c] - ref[v][c]) <= LaplacianBand * iters
 
 (***************************************************************************)
